@@ -273,6 +273,7 @@ def gen_scenario(rng, prof=None, force_selflock=None):
             e_['explicit_none'] = True                                 # absent optional data passed explicitly as None
     spec['failed_attempts'] = rng.randrange(1 << 30) if rng.random() < 0.25 else None     # rejected declarations after the design (sim/build.py)
     spec['touch_constants'] = rng.randrange(1 << 30) if rng.random() < p.get('p_touch_constants', 0.15) else None   # constants converted in place after assembly (sim/build.py)
+    spec['declare_order'] = rng.choice([None, None, 'backward', rng.randrange(1 << 30)])        # order in which the relations of the chain are declared
     spec['order'] = rng.randrange(24)          # which of the legal orders of public calls the driver uses (see sim/build.py)
     sched = [{'op': 'run', 'dt': dt, 'T': mulq(dt, n)}]
     if rng.random() < p.get('p_nonmultiple_T', 0.0):
